@@ -375,25 +375,28 @@ class MessageCompiler(ProtoContentBase):
         )
 
 
+def get_map_entry(
+    proto_field_obj: FieldDescriptorProto, parent_message: DescriptorProto
+) -> Optional[DescriptorProto]:
+    """The map entry message nested in parent_message that proto_field_obj refers to."""
+    if (
+        proto_field_obj.type == FieldDescriptorProtoType.TYPE_MESSAGE
+        and proto_field_obj.label == FieldDescriptorProtoLabel.LABEL_REPEATED
+    ):
+        # The entry is matched by its exact name: protoc derives `ABEntry` from `a_b`
+        # and `AbEntry` from `ab`, which a case-insensitive comparison would confuse.
+        entry_name = proto_field_obj.type_name.split(".").pop()
+        for nested in getattr(parent_message, "nested_type", []):
+            if nested.options.map_entry and nested.name == entry_name:
+                return nested
+    return None
+
+
 def is_map(
     proto_field_obj: FieldDescriptorProto, parent_message: DescriptorProto
 ) -> bool:
     """True if proto_field_obj is a map, otherwise False."""
-    if proto_field_obj.type == FieldDescriptorProtoType.TYPE_MESSAGE:
-        if not hasattr(parent_message, "nested_type"):
-            return False
-
-        # This might be a map...
-        message_type = proto_field_obj.type_name.split(".").pop().lower()
-        map_entry = f"{proto_field_obj.name.replace('_', '').lower()}entry"
-        if message_type == map_entry:
-            for nested in parent_message.nested_type:  # parent message
-                if (
-                    nested.name.replace("_", "").lower() == map_entry
-                    and nested.options.map_entry
-                ):
-                    return True
-    return False
+    return get_map_entry(proto_field_obj, parent_message) is not None
 
 
 def is_oneof(proto_field_obj: FieldDescriptorProto) -> bool:
@@ -594,29 +597,25 @@ class MapEntryCompiler(FieldCompiler):
 
     def __post_init__(self) -> None:
         """Explore nested types and set k_type and v_type if unset."""
-        map_entry = f"{self.proto_obj.name.replace('_', '').lower()}entry"
-        for nested in self.parent.proto_obj.nested_type:
-            if (
-                nested.name.replace("_", "").lower() == map_entry
-                and nested.options.map_entry
-            ):
-                # Get Python types
-                self.py_k_type = FieldCompiler(
-                    source_file=self.source_file,
-                    parent=self,
-                    proto_obj=nested.field[0],  # key
-                    typing_compiler=self.typing_compiler,
-                ).py_type
-                self.py_v_type = FieldCompiler(
-                    source_file=self.source_file,
-                    parent=self,
-                    proto_obj=nested.field[1],  # value
-                    typing_compiler=self.typing_compiler,
-                ).py_type
+        nested = get_map_entry(self.proto_obj, self.parent.proto_obj)
+        if nested is not None:
+            # Get Python types
+            self.py_k_type = FieldCompiler(
+                source_file=self.source_file,
+                parent=self,
+                proto_obj=nested.field[0],  # key
+                typing_compiler=self.typing_compiler,
+            ).py_type
+            self.py_v_type = FieldCompiler(
+                source_file=self.source_file,
+                parent=self,
+                proto_obj=nested.field[1],  # value
+                typing_compiler=self.typing_compiler,
+            ).py_type
 
-                # Get proto types
-                self.proto_k_type = FieldDescriptorProtoType(nested.field[0].type).name
-                self.proto_v_type = FieldDescriptorProtoType(nested.field[1].type).name
+            # Get proto types
+            self.proto_k_type = FieldDescriptorProtoType(nested.field[0].type).name
+            self.proto_v_type = FieldDescriptorProtoType(nested.field[1].type).name
         super().__post_init__()  # call FieldCompiler-> MessageCompiler __post_init__
 
     @property
